@@ -39,6 +39,21 @@ pub fn named_of(s: &Sexp) -> Result<NamedArg, String> {
             ("e", None) => bpaf::env(hx_str(&l[1])?),
             ("e", Some(n)) => n.env(hx_str(&l[1])?),
             ("h", Some(n)) => n.help(hx_str(&l[1])?),
+            ("hd", Some(n)) => {
+                let mut d = bpaf::Doc::default();
+                for fr in &l[1..] {
+                    let fr = fr.list()?;
+                    let tx = hx_str(&fr[1])?;
+                    match fr[0].atom()? {
+                        "text" => d.text(tx),
+                        "literal" => d.literal(tx),
+                        "emphasis" => d.emphasis(tx),
+                        "invalid" => d.invalid(tx),
+                        o => return Err(format!("bad style {}", o)),
+                    }
+                }
+                n.help(d)
+            }
             ("h", None) => return Err("help before any name".into()),
             _ => return Err("bad named field".into()),
         });
